@@ -164,7 +164,7 @@ func init() {
 		for _, k := range errFlowKinds {
 			sb.WriteString("  | " + k.lean + "\n")
 		}
-		sb.WriteString("  deriving DecidableEq, Repr\n\n")
+		sb.WriteString("  deriving DecidableEq, Repr, Inhabited\n\n")
 		sb.WriteString("/-- one call of a child's Run / Evaluate / scanner Err() inside a Run or Evaluate method: is the error it returns used? -/\nstructure Site where\n  kind : Kind\n  method : String\n  callee : String\n  used : Bool\n\n")
 		sort.SliceStable(sites, func(i, j int) bool { return sites[i].kind < sites[j].kind })
 		sb.WriteString("def sites : List Site := [\n")
